@@ -20,19 +20,57 @@
 (***************************************************************************)
 EXTENDS Naturals, FiniteSets, TLC
 
-CONSTANTS Threads, Sections,
-          \* protections of the design; TRUE in the faithful model
-          CheckComparesVersion,     \* check()/try_read_unlock compare the whole word
-          UpgradeComparesVersion,   \* upgrade CAS expects the version read at lock time
-          ReadLockRefusesObsolete,  \* try_read_lock fails on an obsolete word
-          UnlockBumpsVersion        \* write_unlock advances the version
+\* (the @type comments are Apalache annotations: spec/OptLockInd.tla proves an inductive invariant
+\*  for unbounded versions and any number of sections; TLC ignores them)
+CONSTANTS
+  \* @type: Set(Int);
+  Threads,
+  \* @type: Int;
+  Sections,
+  \* protections of the design; TRUE in the faithful model
+  \* @type: Bool;
+  CheckComparesVersion,     \* check()/try_read_unlock compare the whole word
+  \* @type: Bool;
+  UpgradeComparesVersion,   \* upgrade CAS expects the version read at lock time
+  \* @type: Bool;
+  ReadLockRefusesObsolete,  \* try_read_lock fails on an obsolete word
+  \* @type: Bool;
+  UnlockBumpsVersion        \* write_unlock advances the version
 
-VARIABLES word, d1, d2,
-          pc, kind, left,           \* per thread: control state, kind of section, sections left
-          ver, r1, r2,              \* per thread: version snapshot, values read
-          out,                      \* per thread: outcome of the last lock call
-          snap1, snap2, sawWriter,  \* ghosts: memory at section open; a writer became active since
-          bad                       \* ghost: "" or the name of the violated clause
+VARIABLES
+  \* @type: Int;
+  word,
+  \* @type: Int;
+  d1,
+  \* @type: Int;
+  d2,
+  \* per thread: control state, kind of section, sections left
+  \* @type: Int -> Str;
+  pc,
+  \* @type: Int -> Str;
+  kind,
+  \* @type: Int -> Int;
+  left,
+  \* per thread: version snapshot, values read
+  \* @type: Int -> Int;
+  ver,
+  \* @type: Int -> Int;
+  r1,
+  \* @type: Int -> Int;
+  r2,
+  \* per thread: outcome of the last lock call
+  \* @type: Int -> Str;
+  out,
+  \* ghosts: memory at section open; a writer became active since
+  \* @type: Int -> Int;
+  snap1,
+  \* @type: Int -> Int;
+  snap2,
+  \* @type: Int -> Bool;
+  sawWriter,
+  \* ghost: "" or the name of the violated clause
+  \* @type: Str;
+  bad
 
 vars == <<word, d1, d2, pc, kind, left, ver, r1, r2, out, snap1, snap2, sawWriter, bad>>
 
